@@ -581,6 +581,34 @@ func c07Run(r *engine.Run) {
 	})
 	base += int64(len(sub)*len(sub)) * 4
 
+	// byte-level values and texts: a text is compared with a value byte for byte - ill-formed UTF-8, the
+	// replacement character, characters outside the BMP and their decomposed forms are all different strings
+	{
+		sh := r.Shard()
+		odd := []string{"Ren\xe9", "Ren\xfc", "Ren\ufffd", "Rene\u0301", "Ren\u00e9", "\U0001F382", "\xf0\x9f\x8e", "\xe9", "\ufffd", "K", "\u212a", "k"}
+		k := 0
+		for _, v := range odd {
+			card := rCard{"VERSION": "4.0", "FN": v}
+			for _, tx := range odd {
+				for _, mt := range []carddav.MatchType{"", carddav.MatchEquals, carddav.MatchStartsWith, carddav.MatchEndsWith} {
+					for _, neg := range []bool{false, true} {
+						q := &carddav.AddressBookQuery{PropFilters: []carddav.PropFilter{{Name: "FN", TextMatches: []carddav.TextMatch{{Text: tx, MatchType: mt, NegateCondition: neg}}}}}
+						sh.Transition()
+						held, exp, obs := c07Judge(q, card)
+						sh.Clause("byte-level texts and values")
+						sh.Nontrivial(fmt.Sprintf("B/%d", k))
+						if !held {
+							sh.Violate(engine.Violation{Sig: fmt.Sprintf("C07/match/byte-level/type=%q.negate=%v/got=%s", mt, neg, obs), Index: base + int64(k), Kind: "C07", Case: c07Case{Query: q, Card: card}, Expected: exp, Observed: obs})
+						}
+						k++
+					}
+				}
+			}
+		}
+		r.Merge(sh)
+		base += int64(k)
+	}
+
 	// nil query
 	r.Parallel(len(cards), func(i int, s *engine.Shard) {
 		s.Transition()
